@@ -49,32 +49,59 @@ def shift_of(rank, dims, periods, direction, disp, proc_null):
     return res
 
 
-def all_shifts(dims):
-    return [[d, k] for d in range(len(dims)) for k in range(-2 * dims[d], 2 * dims[d] + 1)]
-
-
 def all_coords(dims):
     return [list(c) for c in itertools.product(*[range(d) for d in dims])]
 
 
-def wrapped_coords(dims, periods, wrap):
-    """coordinate vectors moved by wrap[i]*dims[i] (+ a partial shift) on the periodic dimensions: still valid for MPI_Cart_rank"""
-    res = []
-    if not any(periods):
-        return res
-    for c in all_coords(dims):
+# ---- what each caller asks.  `full`: every caller asks everything (all ranks, all coordinate vectors, all displacements in
+# [-2*dim, 2*dim]); otherwise (grids > 16 nodes in random cases) every caller still asks about itself, its neighbours, the corners
+# and some caller-dependent ranks, so that all ranks are covered by the union of the callers (O(n) output instead of O(n^2)).
+def q_ranks(r, m, full):
+    if full:
+        return list(range(m))
+    return sorted({r % m, (r + 1) % m, m - 1 - (r % m), 0, m - 1, (7 * r + 3) % m})
+
+
+def q_coords(r, dims, periods, wrap, full):
+    base = [coords_of(q, dims) for q in q_ranks(r, prod(dims), full)]
+    res = list(base)
+    for c in base:      # moved by wrap[i]*dims[i] on the periodic dimensions: still valid for MPI_Cart_rank
         cc = [x + (w * d if p else 0) for x, w, d, p in zip(c, wrap, dims, periods)]
         if cc != c:
             res.append(cc)
     return res
 
 
+def q_shifts(r, dims, full):
+    res = []
+    for d, size in enumerate(dims):
+        if full or size <= 10:
+            ks = range(-2 * size, 2 * size + 1)
+        else:
+            ks = sorted({-2 * size, -2 * size + 1, -size - 1, -size, -size + 1, -2, -1, 0, 1, 2, size - 1, size, size + 1, 2 * size - 1,
+                         2 * size, (5 * r) % (4 * size + 1) - 2 * size, (11 * r + 7) % (4 * size + 1) - 2 * size})
+        res += [[d, k] for k in ks]
+    return res
+
+
+def is_full(case):
+    return bool(case.get("full")) or prod(case["dims"]) <= 16
+
+
+def per_rank(np_, f):
+    vals = [f(r) for r in range(np_)]
+    return vals[0] if all(v == vals[0] for v in vals) else {"@": vals}
+
+
 def build_prog(case):
     dims, periods = case["dims"], case["periods"]
     n = prod(dims)
+    np_ = n + case["extra"]
     inside = list(range(n))
     nd = len(dims)
     slack = case.get("slack", 0)
+    full = is_full(case)
+    wrap = case["wrap"]
     prog = [{"op": "cart_create", "dims": dims, "periods": periods, "reorder": case.get("reorder", 0), "out": "c"}]
     idx = {"create": 0}
 
@@ -83,12 +110,16 @@ def build_prog(case):
         idx[key] = len(prog)
         prog.append(op)
 
-    add("dim", {"op": "cartdim_get", "comm": "c"})
-    add("get", {"op": "cart_get", "comm": "c", "maxdims": nd + slack})
-    if nd > 0:
-        add("coords", {"op": "cart_coords", "comm": "c", "ranks": inside, "maxdims": nd + slack})
-        add("rank", {"op": "cart_rank", "comm": "c", "coords": all_coords(dims) + wrapped_coords(dims, periods, case["wrap"])})
-        add("shift", {"op": "cart_shift", "comm": "c", "shifts": all_shifts(dims)})
+    def queries(key, comm, qd, qp):
+        add(key + "dim", {"op": "cartdim_get", "comm": comm})
+        add(key + "get", {"op": "cart_get", "comm": comm, "maxdims": len(qd) + slack})
+        if qd:
+            add(key + "coords", {"op": "cart_coords", "comm": comm, "maxdims": len(qd) + slack,
+                                 "ranks": per_rank(np_, lambda r: q_ranks(r, prod(qd), full))})
+            add(key + "rank", {"op": "cart_rank", "comm": comm, "coords": per_rank(np_, lambda r: q_coords(r, qd, qp, wrap, full))})
+            add(key + "shift", {"op": "cart_shift", "comm": comm, "shifts": per_rank(np_, lambda r: q_shifts(r, qd, full))})
+
+    queries("", "c", dims, periods)
     for k, (nn, part) in enumerate(case["dc"]):
         idx["dc%d" % k] = len(prog)
         prog.append({"op": "dims_create", "nnodes": nn, "dims": part, "only": [0]})
@@ -104,14 +135,14 @@ def build_prog(case):
             add(key + "grp", {"op": "comm_group", "comm": name, "out": "g" + name})
             kd = [d for d, m in zip(sdims, mask) if m]
             kp = [p for p, m in zip(sper, mask) if m]
-            add(key + "dim", {"op": "cartdim_get", "comm": name})
-            add(key + "get", {"op": "cart_get", "comm": name, "maxdims": len(kd) + slack})
-            if kd:
-                add(key + "coords", {"op": "cart_coords", "comm": name, "ranks": list(range(prod(kd))), "maxdims": len(kd) + slack})
-                add(key + "rank", {"op": "cart_rank", "comm": name, "coords": all_coords(kd) + wrapped_coords(kd, kp, case["wrap"])})
-                add(key + "shift", {"op": "cart_shift", "comm": name, "shifts": all_shifts(kd)})
+            queries(key, name, kd, kp)
             comm, sdims, sper = name, kd, kp
     return prog, idx
+
+
+def arg_of(prog, i, name, r):
+    v = prog[i][name]
+    return v["@"][r % len(v["@"])] if isinstance(v, dict) else v
 
 
 def sub_ranks(case, me, k):
@@ -169,13 +200,14 @@ def cases(draw):
                 part.append(draw(st.integers(1, 9)))
         dc.append([nn, part])
     return {"dims": dims, "periods": periods, "extra": draw(st.integers(0, 2)), "reorder": draw(st.integers(0, 1)),
-            "slack": draw(st.integers(0, 2)), "wrap": [draw(st.integers(-2, 2)) for _ in range(4)], "subs": subs, "dc": dc}
+            "slack": draw(st.integers(0, 2)), "wrap": [draw(st.integers(-2, 2)) for _ in range(4)], "subs": subs, "dc": dc,
+            "full": draw(st.integers(0, 9)) == 0}
 
 
 class C33(core.Prop):
     id = "C33"
     drivers = ["mpi_interp"]
-    sizes = {"quick": 2500, "thorough": 60000}
+    sizes = {"quick": 1500, "thorough": 40000}
     max_workers = 4
     technique = ("property-based testing (Hypothesis) + exhaustive enumeration of small grids: integer-arithmetic reference of MPI-3.1 "
                  "chapter 7 (row-major rank<->coordinates, periodic wrap, shift neighbours, Cart_sub partition) compared with the "
@@ -217,7 +249,7 @@ class C33(core.Prop):
                 for per in itertools.product([0, 1], repeat=nd):
                     masks = [list(m) for m in itertools.product([0, 1], repeat=nd)]
                     res.append({"dims": dims, "periods": list(per), "extra": 1 if prod(dims) % 2 else 0, "reorder": 0, "slack": 0,
-                                "wrap": [1, -1, 2, -2], "subs": [[m] for m in masks], "dc": []})
+                                "wrap": [1, -1, 2, -2], "subs": [[m] for m in masks], "dc": [], "full": True})
         # Dims_create: every nnodes <= 64 with all-free dims of every length, and one fixed entry
         dcs = []
         for nn in range(1, MAXN + 1):
@@ -244,6 +276,7 @@ class C33(core.Prop):
         n = prod(dims)
         np_ = n + case["extra"]
         prog, idx = build_prog(case)
+        self.prog = prog
         res = mpi.run({"np": np_, "prog": prog}, cpu=30)
         oc.labels.append("ndims=%d" % nd)
         big = [d for d in dims if d >= 2]
@@ -278,6 +311,7 @@ class C33(core.Prop):
             if sig == "bad-case":
                 raise RuntimeError(msg)
             oc.bad(sig, msg + "  [dims=%s periods=%s]" % (dims, periods))
+            return oc
 
         def rec(r, key):
             return res.get(r, idx[key]) if key in idx else None
@@ -374,7 +408,8 @@ class C33(core.Prop):
             if not feasible:
                 oc.labels.append("dims-create-infeasible")
                 if d["rc"] == 0:
-                    oc.bad("dims-create:no-error", "%s returned MPI_SUCCESS with %s although %d is not a multiple of the given entries" % (call, out, nn))
+                    each = all(nn % x == 0 for x in part if x > 0)
+                    oc.bad("dims-create:no-error:each-entry-divides" if each else "dims-create:no-error", "%s returned MPI_SUCCESS with %s although %d is not a multiple of the given entries" % (call, out, nn))
                 continue
             oc.labels.append("dims-create-feasible")
             if d["rc"] != 0:
@@ -416,14 +451,14 @@ class C33(core.Prop):
         n = prod(dims)
         c = rec(r, key + "coords")
         if c is not None:
-            for q, (rc, co) in enumerate(c["res"]):
+            for q, (rc, co) in zip(arg_of(self.prog, c["i"], "ranks", r), c["res"]):
                 exp = coords_of(q, dims)
                 if rc != 0 or co[:nd] != exp:
                     oc.bad(pre + "coords", "%s: MPI_Cart_coords(%d) -> rc=%d %s, expected %s" % (who, q, rc, co[:nd], exp))
                     break
         k = rec(r, key + "rank")
         if k is not None:
-            qs = all_coords(dims) + wrapped_coords(dims, periods, case["wrap"])
+            qs = arg_of(self.prog, k["i"], "coords", r)
             for co, (rc, rk) in zip(qs, k["res"]):
                 exp = rank_of(co, dims, periods)
                 if rc != 0 or rk != exp:
@@ -434,7 +469,7 @@ class C33(core.Prop):
                     oc.bad(pre + "not-inverse", "%s: Cart_coords(Cart_rank(%s)) differs" % (who, co))
         s = rec(r, key + "shift")
         if s is not None:
-            for (direction, disp), (rc, src, dst) in zip(all_shifts(dims), s["res"]):
+            for (direction, disp), (rc, src, dst) in zip(arg_of(self.prog, s["i"], "shifts", r), s["res"]):
                 es, ed = shift_of(me, dims, periods, direction, disp, K.PROC_NULL)
                 if rc != 0:
                     oc.bad(pre + "shift-error", "%s: MPI_Cart_shift(%d, %d) returned %d" % (who, direction, disp, rc))
